@@ -775,7 +775,7 @@ fn gen_mop(r: &mut Prng, view: &View, table: &HashMap<(u64, Vec<u8>), Pl>, x: u6
     let ws = &view.s.wallets[&x];
     let ids: Vec<i64> = ws.pending.keys().cloned().collect();
     let k = r.below(100);
-    if k < 46 || (ids.is_empty() && k < 85) {
+    if k < 34 || (ids.is_empty() && k < 85) {
         // Propose
         let wallets = view.wallets();
         match r.below(100) {
@@ -802,7 +802,7 @@ fn gen_mop(r: &mut Prng, view: &View, table: &HashMap<(u64, Vec<u8>), Pl>, x: u6
                 MOp::Propose { to, value: gen_value(r, view, x), p: Pl::Call(Box::new(inner)) }
             }
         }
-    } else if k < 78 {
+    } else if k < 76 {
         // Approve
         let fresh: Vec<i64> = ids.iter().cloned().filter(|i| !ws.pending[i].approved.contains(&caller)).collect();
         let id = match r.below(100) {
@@ -812,7 +812,7 @@ fn gen_mop(r: &mut Prng, view: &View, table: &HashMap<(u64, Vec<u8>), Pl>, x: u6
             _ => r.range(-1, ws.next_id + 1),
         };
         MOp::Approve { id, h: gen_hash(r, ws.pending.get(&id), view, table) }
-    } else if k < 88 {
+    } else if k < 87 {
         let own: Vec<i64> = ids.iter().cloned().filter(|i| ws.pending[i].approved.first() == Some(&caller)).collect();
         let id = match r.below(100) {
             0..=64 if !own.is_empty() => *r.pick(&own),
@@ -839,7 +839,7 @@ fn gen_create(r: &mut Prng, view: &View) -> Top {
             sg.push(a);
         }
     }
-    let mut th = match r.below(100) { 0..=49 => 1, 50..=84 => 1 + r.below(sg.len() as u64), _ => sg.len() as u64 };
+    let mut th = match r.below(100) { 0..=29 => 1, 30..=74 => 1 + r.below(sg.len() as u64), _ => sg.len() as u64 };
     match r.below(100) {
         0..=2 => sg.clear(),
         3..=5 => { let d = sg[0]; sg.push(d); }
